@@ -160,6 +160,21 @@ static void ref_expect(cfg_t *ctx, struct pexp *x)
 			x->state = 1;
 			x->need_diag = 0;
 			x->no_diag = 1;
+#elif defined(PATHNAME)
+			/* "c|X": the sub-options of section "c" are "a" and "z" */
+			int hit = vin_tok[2] == 'a' || vin_tok[2] == 'z' || (nocase && (vin_tok[2] == 'A' || vin_tok[2] == 'Z'));
+
+			x->need_diag = 0;
+			if (hit) {
+				x->kind = X_CONT;
+				x->state = 1;
+			} else if (ctx->flags & CFGF_IGNORE_UNKNOWN) {
+				x->kind = X_CONT;
+				x->state = 10;
+			} else {
+				x->kind = X_ERR;
+				x->need_diag = 1;
+			}
 #else
 			int idx = ref_lookup(vin_tok, nocase);
 
